@@ -22,6 +22,7 @@ import (
 	"net/http/httptest"
 	"os"
 	"sort"
+	"strconv"
 	"strings"
 	"sync"
 	"time"
@@ -857,6 +858,198 @@ func (g *gen) starts(names []string, count int) []string {
 	return out[:count]
 }
 
+// ---------------------------------------------------------------- start points one edit away from a name
+//
+// A layer that maps the start point into another name space (Sub), re-encodes it (client,
+// server) or just hands it on (Select, unify, debug) must hand on exactly the bytes it was
+// given.  A "tidied" start point (a trailing or leading slash trimmed, white space trimmed,
+// path.Clean / path.Join, a case fold, a cut at a separator) equals the caller's start point
+// for every start point that is itself a well-formed name, so only start points that are NOT
+// names show the difference - and only when some listed name lies between the start point and
+// its tidied form.  Hence: start points that differ from a listed name (or from a
+// "directory" of listed names) by one such edit, over name sets that hold the siblings which
+// sort next to that name (a, a-b, a.b, a/b, a0, a_b: '-' and '.' sort before '/', '0' and '_'
+// after it).
+
+var startSuffixes = []string{"/", "-", ".", "_", "0", " ", "//", "/.", "/..", "/-", "\t", "\n", "~", "!", "/~"}
+var startPrefixes = []string{"/", "./", " ", "../", "//"}
+
+// the first two are the commonest (a directory written with its slash; an absolute name)
+func editsOf(el string) []string {
+	var out []string
+	for _, x := range startSuffixes {
+		out = append(out, el+x)
+	}
+	for _, x := range startPrefixes {
+		out = append(out, x+el)
+	}
+	if u := strings.ToUpper(el); u != el {
+		out = append(out, u)
+	}
+	if el != "" {
+		out = append(out, el[:len(el)-1])
+		b := []byte(el)
+		b[len(b)-1]--
+		out = append(out, string(b))
+		b = []byte(el)
+		b[len(b)-1]++
+		out = append(out, string(b))
+		if i := strings.IndexAny(el, "/-._"); i >= 0 {
+			// a separator doubled, and the name cut at / after its first separator
+			out = append(out, el[:i+1]+el[i:], el[:i], el[:i+1])
+		}
+	}
+	return out
+}
+
+// the names and every "directory" above them (a/b/c: a/b and a), sorted, no duplicates
+func withDirs(names []string) []string {
+	out := append([]string{}, names...)
+	for _, n := range names {
+		for i := len(n) - 1; i > 0; i-- {
+			if n[i] == '/' {
+				out = append(out, n[:i])
+			}
+		}
+	}
+	out = uniq(out)
+	sort.Strings(out)
+	return out
+}
+
+// every base with a trailing slash; three with a leading slash; every second of the other edits
+// (the even or the odd ones) on one base
+func (g *gen) sweepStarts(names []string, parity int) []string {
+	bases := withDirs(names)
+	if len(bases) == 0 {
+		bases = []string{"a"}
+	}
+	var out []string
+	for _, b := range bases {
+		out = append(out, b+"/")
+	}
+	for j := 0; j < 3; j++ {
+		out = append(out, "/"+bases[g.r.Intn(len(bases))])
+	}
+	nEdits := len(editsOf("a/b"))
+	for e := parity & 1; e < nEdits; e += 2 {
+		ed := editsOf(bases[g.r.Intn(len(bases))])
+		if e < len(ed) {
+			out = append(out, ed[e])
+		}
+	}
+	return uniq(out)
+}
+
+// count start points: none, then edits of names / directories (a third of them the trailing slash)
+func (g *gen) editStarts(names []string, count int) []string {
+	bases := withDirs(names)
+	if len(bases) == 0 {
+		bases = []string{g.pick(repoPool)}
+	}
+	out := []string{""}
+	for len(out) < count {
+		b := bases[g.r.Intn(len(bases))]
+		switch g.r.Intn(6) {
+		case 0, 1:
+			out = append(out, b+"/")
+		case 2:
+			out = append(out, b)
+		default:
+			ed := editsOf(b)
+			out = append(out, ed[g.r.Intn(len(ed))])
+		}
+	}
+	return out
+}
+
+// name sets made of families: a base and the names that sort right next to it
+var repoBases = []string{"a", "b", "p", "x", "a/b", "p/y", "0", "zz", "x/y", "a-b", "p.q"}
+var repoTails = []string{"", "", "-b", ".b", "_b", "--b", "/b", "/b/c", "/b-c", "/x", "0", "0/x", "b", "-b/c", ".b/c", "/0", "/z"}
+var tagBases = []string{"v1", "A", "z", "1.2", "_", "latest", "V", "0"}
+var tagTails = []string{"", "", "-", "-rc", ".", ".0", "_", "_rc", "0", "00", "a", "-.", "..", "A", "Z"}
+
+func (g *gen) family(bases, tails []string, m int) []string {
+	var out []string
+	for len(uniq(out)) < m {
+		b := g.pick(bases)
+		for _, t := range g.subset(tails, 2+g.r.Intn(5)) {
+			out = append(out, b+t)
+		}
+	}
+	out = uniq(out)
+	g.r.Shuffle(len(out), func(i, j int) { out[i], out[j] = out[j], out[i] })
+	return out[:m]
+}
+
+// compose builds the stack whose layers are given from the outside in, over ocimem leaves:
+// debug | hop:<page size>:<link|nolink> | select | sub:<prefix> | unify
+func (g *gen) compose(lv level, layers []string) *stackDesc {
+	if len(layers) == 0 {
+		return g.leafMem(lv)
+	}
+	f := strings.Split(layers[0], ":")
+	rest := layers[1:]
+	switch f[0] {
+	case "debug":
+		return &stackDesc{Kind: "debug", Inner: g.compose(lv, rest)}
+	case "hop":
+		p, err := strconv.Atoi(f[1])
+		if err != nil {
+			panic(err)
+		}
+		return &stackDesc{Kind: "hop", PageSize: p, OmitLink: f[2] == "nolink", Inner: g.compose(lv, rest)}
+	case "select":
+		s := &stackDesc{Kind: "select"}
+		inner := lv
+		if lv.q == "repos" {
+			// hidden names right next to the listed ones
+			var noise []string
+			for _, n := range lv.names {
+				noise = append(noise, n+"-h", n+"/h", n+"0")
+			}
+			noise = without(uniq(noise), lv.names)
+			noise = g.subset(noise, min(len(noise), 6))
+			inner.names = append(append([]string{}, lv.names...), noise...)
+			s.Allowed = append(append([]string{}, lv.names...), "never/there")
+		} else {
+			s.Allowed = []string{lv.repo, "never/there"}
+		}
+		sort.Strings(s.Allowed)
+		s.Inner = g.compose(inner, rest)
+		return s
+	case "sub":
+		s := &stackDesc{Kind: "sub", Prefix: f[1]}
+		inner := lv
+		if lv.q == "repos" {
+			inner.names = nil
+			for _, n := range lv.names {
+				inner.names = append(inner.names, s.Prefix+"/"+n)
+			}
+			// every near miss outside the prefix
+			inner.names = append(inner.names, s.Prefix, s.Prefix+"x", s.Prefix+"-x", s.Prefix+"0/x", "o/x", "zzz", s.Prefix+".a", "0/"+s.Prefix)
+			inner.names = uniq(inner.names)
+		} else {
+			inner.repo = s.Prefix + "/" + lv.repo
+		}
+		s.Inner = g.compose(inner, rest)
+		return s
+	case "unify":
+		la, lb := lv, lv
+		la.names, lb.names = nil, nil
+		for i, n := range lv.names {
+			if i%3 != 1 {
+				la.names = append(la.names, n)
+			}
+			if i%3 != 0 {
+				lb.names = append(lb.names, n)
+			}
+		}
+		return &stackDesc{Kind: "unify", A: g.compose(la, rest), B: g.compose(lb, rest)}
+	}
+	panic("unknown layer " + layers[0])
+}
+
 func ksFor(n int, p int, all bool) []int {
 	if all || n+1 <= 7 {
 		ks := []int{0}
@@ -899,7 +1092,7 @@ func topPage(s *stackDesc) int {
 func main() {
 	cfg := hx.ParseFlags()
 	out := hx.NewOut(cfg, "Obs.C05")
-	out.ShardMax = 200
+	out.ShardMax = 260 // one wave of at most 16 coqc processes in the quick tier
 	add := func(in input, origin string) {
 		if stuck >= maxStuck {
 			return // iterators keep hanging: what has been recorded is enough to report
@@ -942,6 +1135,10 @@ func main() {
 			switch {
 			case st == "":
 				startKind = "absent"
+			case strings.HasSuffix(st, "/"):
+				startKind = "trailing-slash"
+			case strings.HasPrefix(st, "/"):
+				startKind = "leading-slash"
 			case strings.ContainsAny(st, "&=%+ ?#<>\"\x00\xff") || !isASCII(st):
 				startKind = "metachar"
 			}
@@ -1151,6 +1348,59 @@ func main() {
 		}
 		for _, s := range g.starts(lv.names, nq) {
 			add(input{Stack: st, Query: queryDesc{Kind: lv.q, Repo: lv.repo}, StartHex: hexOf(s), Ks: ksFor(len(lv.names), topPage(st), false)}, "random")
+		}
+	}
+	// --- the start point one edit away from a name or a directory, under every layer (own random
+	// stream: the cases above stay what they were)
+	g2 := &gen{r: rand.New(rand.NewSource(cfg.Seed ^ 0x5c05))}
+	denseRepos := []string{"0", "a", "a-b", "a.b", "a/b", "a/b-c", "a/b/c", "a/b0", "a0", "a_b", "ab", "b", "b/c/d", "b/c0", "zz"}
+	denseTags := []string{"A", "V1", "_", "_x", "v1", "v1-", "v1-rc", "v1.", "v1.0", "v10", "v1_rc", "z"}
+	// (the in-process layers hand a tag start point on untouched: fewer shapes for tags)
+	for si, sh := range []struct {
+		tags   bool
+		layers []string
+	}{
+		{true, nil}, {false, []string{"debug"}}, {false, []string{"select"}}, {true, []string{"unify"}},
+		{true, []string{"sub:a"}}, {false, []string{"sub:a/b"}}, {false, []string{"sub:t-x"}}, {false, []string{"sub:a", "sub:p.q"}},
+		{false, []string{"select", "sub:a"}}, {false, []string{"sub:b", "select"}}, {false, []string{"unify", "sub:a"}},
+		{false, []string{"sub:zz", "unify"}}, {false, []string{"debug", "sub:a"}},
+		{true, []string{"hop:2:link"}}, {true, []string{"hop:3:nolink"}}, {true, []string{"hop:2:nolink", "hop:3:link"}},
+		{false, []string{"hop:2:link", "sub:a"}}, {false, []string{"hop:3:nolink", "sub:a/b"}},
+		{true, []string{"sub:a", "hop:2:nolink"}}, {false, []string{"sub:b", "hop:4:link"}},
+		{false, []string{"hop:1000:link", "select", "sub:p"}}, {false, []string{"hop:2:nolink", "unify", "sub:a"}},
+	} {
+		layers := sh.layers
+		for qi, q := range []string{"repos", "tags"} {
+			lv := level{q: q, names: denseRepos}
+			if q == "tags" {
+				if !sh.tags {
+					continue
+				}
+				lv.repo, lv.names = "a/b", denseTags
+			}
+			st := g2.compose(lv, layers)
+			for _, s := range g2.sweepStarts(lv.names, si+qi) {
+				add(input{Stack: st, Query: queryDesc{Kind: q, Repo: lv.repo}, StartHex: hexOf(s), Ks: []int{0}}, "edited-start")
+			}
+		}
+	}
+	// --- random stacks over families of neighbouring names, start points edited names
+	nDense := 90
+	if cfg.Thorough() {
+		nDense = 3000
+	}
+	for i := 0; i < nDense; i++ {
+		lv := level{q: "repos"}
+		m := 3 + g2.r.Intn(10)
+		if i%3 == 2 {
+			lv.q, lv.repo = "tags", g2.pick(repoPool)
+			lv.names = g2.family(tagBases, tagTails, m)
+		} else {
+			lv.names = g2.family(repoBases, repoTails, m)
+		}
+		st := g2.stack(lv, 1+g2.r.Intn(3), 1+g2.r.Intn(2))
+		for _, s := range g2.editStarts(lv.names, 5) {
+			add(input{Stack: st, Query: queryDesc{Kind: lv.q, Repo: lv.repo}, StartHex: hexOf(s), Ks: ksFor(len(lv.names), topPage(st), false)}, "random-family")
 		}
 	}
 	if err := out.Flush(); err != nil {
